@@ -57,7 +57,7 @@ def plan(tier, seed):
             for i, p in enumerate(paths):
                 if tier == 'thorough' or (i + j + k) % 3 == 0:
                     cases.append({'tr': 'pty', 'fate': f, 'path': p, 'prelude': prelude})
-        for p in ('wait', 'eof-wait'):
+        for p in ('wait', 'eof-wait', 'kill-wait', 'kill-kill-wait'):
             cases.append({'tr': 'popen', 'fate': f, 'path': p})
         cases.append({'tr': 'run', 'fate': f, 'path': 'run', 'u': (f[1] % 2 == 0)})
     rng.shuffle(cases)
@@ -256,6 +256,14 @@ def popen_case(case, acc, rng):
         acc.count('popen_cases')
         if path == 'eof-wait':
             c.expect(EOF)
+        if path.startswith('kill'):
+            # late clean-up / escalation: signals sent to a child that is already dead (still unreaped) must not
+            # spoil the later observation
+            for _ in range(path.count('kill')):
+                try:
+                    c.kill(signal.SIGTERM)
+                except OSError:
+                    pass
         r = c.wait()
         if not judge(c, fate, 'wait()', acc, case, check_status=False):
             return
